@@ -28,6 +28,9 @@ CLAIMED = {
  'C10': ('M', 'symbolic execution of the MIR of fold_binary / fold_unary (varpulis-parser) on symbolic operands, followed by symbolic execution of the real evaluator (eval_expr_with_functions, varpulis-runtime) on both the original and the folded expression against the same symbolic event; Z3 decides agreement on every pair of paths; native replay through fold_program + eval_filter_expr',
          'Solver-decided for every operator, operands each an integer literal (any i64), a float literal (any f64) or a field reference, and an event where the field is missing or holds a value of any type: the folded expression evaluates to the same value (Value::eq) or the same absence of a value, and folding does not panic. Disagreements are keyed by (operator, operand kinds, type class of the field); the identity rewrites pinned by the optimizer tests are recorded as known findings.',
          'Depth 1 (one operator over literal/field operands); Pow exponents bounded to 0..6 with exact models of wrapping_pow and of compiler-rt __powidf2; strings/arrays/maps opaque. Outside: deeper nesting (fold_expr recursion), fold_program traversal of statements/stream ops. Trusted: MIR dumps, executor, models listed in evidence.', 'DESIGN.md §4 C10'),
+ 'C14': ('M', 'symbolic execution of the MIR of the simd.rs kernels (sum/min/max: scalar 4-way unrolled, AVX2, and the dispatchers with symbolic feature detection) into Z3, one obligation set per concrete slice length with symbolic contents; AVX2 intrinsics as 4-lane IEEE operations, raw pointers as (slice, offset) with in-bounds obligations; native replay through the public kernels and, via cfg(varpulis_verif) hooks, the scalar kernels',
+         'Solver-decided for every slice length 0..6 (quick) / 0..9 (thorough) — every residue of the 4-lane split on both sides of a full chunk: sum returns exactly the sum on the exact domain (integer-valued inputs |x| <= 2^20: a dropped, duplicated or mis-indexed element changes it), min/max return an element that bounds all elements for all non-NaN doubles, empty input gives no value, scalar and AVX2 targets agree, no out-of-bounds access and no arithmetic panic.',
+         'PARTIAL claim: the numeric kernels under sum/avg/min/max only. Outside: floating-point rounding of general sums, the Aggregator apply / apply_refs / apply_columnar wrappers over events and the columnar buffer, avg/stddev/ema/first/last/count_distinct, NaN/missing handling of the callers. Sum kernels are checked on the exact integer domain (IEEE + = integer + below 2^53). Trusted: intrinsic models listed in evidence.', 'DESIGN.md §4 C14'),
  'C40': ('M', 'symbolic execution of the MIR of <Value as PartialEq>::eq, float_eq and <Value as Hash>::hash (varpulis-core) into Z3 on symbolic values of every scalar variant, short arrays and maps in both insertion orders, with hashing observed through a recording hasher (exact write sequence); native probe replay',
          'Solver-decided: equality is reflexive, symmetric and transitive (three symbolic values) and eq(a, b) implies identical hasher write sequences (hence equal hashes for every Hasher), for all scalar variants with fully symbolic payloads (all f64 bit patterns incl. NaN/-0.0, all i64/u64, booleans, strings as identity tokens), arrays of <= 2 scalars and maps of <= 2 entries with distinct keys in either insertion order.',
          'Trusted: MIR dump + executor; IndexMap equality modelled by its documented semantics (order-independent), iteration in insertion order; nested hashers modelled as uninterpreted folds of their write sequence. Outside: containers nested deeper than one level or longer than 2.', 'DESIGN.md §4 C40'),
